@@ -276,14 +276,15 @@ def _overlapping_globs(inp):
 
 
 def _login_vs_mask(inp):
-    """F22: a hostmask is logged in to one account while another account's mask matches it"""
+    """F22: a hostmask logs in to one account while another account recognises it (own mask or login)"""
     hist = inp.get('history')
     if not hist:
         return False
     h = inp['h']
-    auths = [o for o in hist['ops'][:inp['step'] + 1] if o[0] == 'auth' and o[2] == h]
-    sets = [o for o in hist['ops'][:inp['step'] + 1] if o[0] == 'set' and any(ref_match(m, h) for m in o[2][1])]
-    return any(a[1] != s[1] for a in auths for s in sets)
+    upto = hist['ops'][:inp['step'] + 1]
+    auths = [o for o in upto if o[0] == 'auth' and o[2] == h]
+    sets = [o for o in upto if o[0] == 'set' and any(ref_match(m, h) for m in o[2][1])]
+    return any(a[1] != s[1] for a in auths for s in sets) or len(set(a[1] for a in auths)) > 1
 
 
 CLASSES = {'expired_login_cached': _expired_login_cached, 'overlapping_globs': _overlapping_globs,
